@@ -65,6 +65,10 @@ def insertSorted (a : ANP) : List ANP → List ANP
 def insertANP (e : Engine) (a : ANP) : Except Err Engine :=
   if e.exposure then .error .exposureWithANP
   else if e.anpNames.contains a.name then .error .dupANP
+  -- a priority outside the range, or held already, is rejected at insertion (as the sort of a batch does): the list is
+  -- ordered by priority, so the entry before the insertion point is the only candidate for an equal one
+  else if !a.validPriority then .error .anpPriority
+  else if e.anps.any (fun b => b.prio == a.prio) then .error .anpPriority
   else .ok { e with anpNames := e.anpNames ++ [a.name], anps := insertSorted a e.anps }
 
 def insertBANP (e : Engine) (b : BANP) : Except Err Engine :=
